@@ -33,6 +33,23 @@ theorem C01_rb {K V : Type} (cmp : K → K → Int) (h : LawfulCmp cmp) (eqVal :
     ⟨⟨inv_nil, llrb_nil⟩, ⟨inv_nil, llrb_nil⟩⟩
   exact ⟨s, outs, e, acc⟩
 
+/-- `Traverse` stated exactly (not only up to the enumeration the sorted map admits): in each of the eight
+orders, with a visitor that stops after `limit` pairs (`0` = never), it visits precisely the first pairs of
+the pre-order, in-order or post-order listing `listing o t` of the tree (a plain structural recursion, defined in
+`Proofs/C01Traverse.lean`); for an invalid order it visits nothing.  Holds for every tree. -/
+theorem C01_traverse_exact {K V : Type} (o : Order) (limit : Nat) (t : Tree K V) :
+    traverseCollect o limit t = if o = .other then [] else Spec.takeLim limit (listing o t) := by
+  by_cases ho : o = .other
+  · subst ho; simp [traverseCollect_other]
+  · rw [if_neg ho, traverseCollect_eq o ho]
+
+/-- `FirstMatch` stated exactly: the first pair of the pre-order (VLR) listing that satisfies the
+predicate; `AnyMatch`/`AllMatch` stop at the first decisive pair of the same listing but their result
+does not depend on it. -/
+theorem C01_firstMatch_exact {K V : Type} (p : K → V → Bool) (t : Tree K V) :
+    firstMatch p t = (listing .vlr t).find? (fun x => p x.1 x.2) :=
+  firstMatch_eq p t
+
 /-- The Model has the query half of the three tables once.  This is the regenerated fact that justifies it:
 on the current /repo the 29 query functions of `bst.go`, `avl.go` and `red_black.go` are identical after
 renaming (`bin/pre-C01` rewrites `Generated/C01.lean` on every check). -/
@@ -43,6 +60,15 @@ theorem C01_queries_shared : AlgoVerif.Generated.C01.allShared = true := by deci
 /-- the two comparators of the harness satisfy the law the theorems assume -/
 example : LawfulCmp cmpAsc := lawful_cmpAsc
 example : LawfulCmp cmpDesc := lawful_cmpDesc
+/-- … and so do the non-normalised ones (`a-b`, `7*(a-b)`, `b-a`) -/
+example : LawfulCmp cmpDiff := lawful_cmpDiff
+example : LawfulCmp cmpDiff7 := lawful_cmpDiff7
+example : LawfulCmp cmpRDiff := lawful_cmpRDiff
+
+example : okAnd (run .rb cmpDiff7 eqInt
+      [.put 1 1, .put 3 3, .put 2 2, .put 7 7, .put 6 6, .put 5 5, .put 4 4, .delete 2, .delete 6, .deleteMin,
+        .deleteMax, .allUntil 2, .equalOther])
+    (fun r => r.1.1.sz == 3) = true := by decide
 
 /-- a history with a double rotation (AVL: 1, 3, 2) reaching a 7-key tree, then a two-child `Delete`,
 `DeleteMin`, `DeleteMax`, a query on an absent key and a `SelectMatch`, runs to completion -/
